@@ -40,8 +40,34 @@ func (fmtLogger) Info(f string, a ...interface{})  { _ = fmt.Sprintf(f, a...) }
 func (fmtLogger) Warn(f string, a ...interface{})  { _ = fmt.Sprintf(f, a...) }
 func (fmtLogger) Error(f string, a ...interface{}) { _ = fmt.Sprintf(f, a...) }
 
+// sourceOf / setSource read and write the identifying attribute of a request in the current case.
+func sourceOf(r *http.Request) string {
+	if srcHeader == "Host" {
+		return r.Host
+	}
+	return r.Header.Get(srcHeader)
+}
+
+func setSource(r *http.Request, v string) {
+	if srcHeader == "Host" {
+		r.Host = v
+		// behind a balancer the request's URL points at whatever upstream was chosen: not the Host
+		r.URL.Host = "upstream-1.internal:8080"
+		return
+	}
+	if v == "" {
+		r.Header.Del(srcHeader)
+		return
+	}
+	r.Header.Set(srcHeader, v)
+}
+
 func newLimiter(t interface{ Fatalf(string, ...any) }, next http.Handler, limit int64) *connlimit.ConnLimiter {
-	ex, err := utils.NewExtractor("request.header." + srcSpelling)
+	variable := "request.header." + srcSpelling
+	if srcHeader == "Host" {
+		variable = "request.host"
+	}
+	ex, err := utils.NewExtractor(variable)
 	if err != nil {
 		t.Fatalf("NewExtractor: %v", err)
 	}
@@ -60,9 +86,12 @@ func TestC04_Schedules(t *testing.T) {
 	rapid.Check(t, func(t *rapid.T) {
 		limit := rapid.IntRange(0, 4).Draw(t, "limit")
 		srcs := []string{"a", "b", "c"}
+		if rapid.IntRange(0, 2).Draw(t, "anonymousSource") == 0 {
+			srcs = append(srcs, "") // requests without the identifying header: one more source, limited like any other
+		}
 		// the identifying header may be a credential header, and the configuration may spell the
 		// name in any case; a third of the limiters log verbosely
-		hs := rapid.SampledFrom([][2]string{{"X-Src", "X-Src"}, {"X-Src", "x-src"}, {"X-Src", "X-SRC"}, {"Authorization", "Authorization"}, {"X-Api-Key", "X-API-Key"}, {"Cookie", "Cookie"}}).Draw(t, "sourceHeader")
+		hs := rapid.SampledFrom([][2]string{{"X-Src", "X-Src"}, {"X-Src", "x-src"}, {"X-Src", "X-SRC"}, {"Authorization", "Authorization"}, {"X-Api-Key", "X-API-Key"}, {"Cookie", "Cookie"}, {"Host", "request.host"}}).Draw(t, "sourceHeader")
 		srcHeader, srcSpelling = hs[0], hs[1]
 		verboseLimiter = rapid.IntRange(0, 2).Draw(t, "verbose") == 0
 		defer func() { srcHeader, srcSpelling, verboseLimiter = "X-Src", "X-Src", false }()
@@ -77,7 +106,7 @@ func TestC04_Schedules(t *testing.T) {
 		}
 		gate.OnEnter = func(c *sim.Call, r *http.Request) {
 			mu.Lock()
-			k := strings.TrimPrefix(r.Header.Get(srcHeader), longPrefix)
+			k := strings.TrimPrefix(sourceOf(r), longPrefix)
 			inside[k]++
 			if inside[k] > maxInside {
 				maxInside = inside[k]
@@ -129,9 +158,12 @@ func TestC04_Schedules(t *testing.T) {
 		rejections, panics, mutations, cancels, rewraps := 0, 0, 0, 0, 0
 		used := map[string]bool{}
 		start := func(src string, mustAdmit, mustReject bool) {
+			if byIP && src == "" {
+				src = "a" // a peer always has an address
+			}
 			ctx, cancel := context.WithCancel(context.Background())
 			req := httptest.NewRequest("GET", "http://x/", nil).WithContext(ctx)
-			req.Header.Set(srcHeader, longPrefix+src)
+			setSource(req, longPrefix+src)
 			unidentifiable := false
 			if byIP {
 				req.RemoteAddr = ipOf[src] + ":" + fmt.Sprint(rapid.IntRange(1024, 65535).Draw(t, "port"))
@@ -193,7 +225,7 @@ func TestC04_Schedules(t *testing.T) {
 					t.Fatalf("%v", err)
 				}
 				if c2.Entered {
-					t.Fatalf("limit %d: a request of source %s refused with %d was handed in again unchanged and admitted (its source header now reads %q)\nschedule: %s", limit, tag, c.Rec.Status(), req.Header.Get(srcHeader), strings.Join(log, " "))
+					t.Fatalf("limit %d: a request of source %s refused with %d was handed in again unchanged and admitted (its source header now reads %q)\nschedule: %s", limit, tag, c.Rec.Status(), sourceOf(req), strings.Join(log, " "))
 				}
 			}
 			cancel()
@@ -218,11 +250,11 @@ func TestC04_Schedules(t *testing.T) {
 			o := sim.Outcome{Status: 200, Panic: panic}
 			switch rapid.IntRange(0, 5).Draw(t, "scrub") {
 			case 0: // the handler scrubs the identifying header before returning
-				o.Mutate = func(r *http.Request) { r.Header.Del(srcHeader) }
+				o.Mutate = func(r *http.Request) { setSource(r, "") }
 				mutations++
 			case 1: // ... or rewrites it to another source's value
 				other := rapid.SampledFrom(srcs).Draw(t, "rewriteTo")
-				o.Mutate = func(r *http.Request) { r.Header.Set(srcHeader, longPrefix+other); r.Header.Del("X-Grp") }
+				o.Mutate = func(r *http.Request) { setSource(r, longPrefix+other); r.Header.Del("X-Grp") }
 				mutations++
 			}
 			if err := f.c.Finish(o); err != nil {
@@ -270,6 +302,9 @@ func TestC04_Schedules(t *testing.T) {
 		}
 		log = append(log, "|drained|")
 		for _, s := range srcs {
+			if byIP && s == "" {
+				continue
+			}
 			for k := 0; k < limit; k++ {
 				start(s, true, false)
 			}
